@@ -85,6 +85,32 @@ func main() {
 				}
 			}
 			fmt.Println("no violation of the status rules (4xx-for-malformed is judged by the check)")
+		case "C06W":
+			var rp lenientReplay
+			a.LoadReplay(&rp)
+			for _, r := range u.Resources {
+				if r.Namespace != rp.Res {
+					continue
+				}
+				m := r.Method(rp.Method)
+				ent := returnsEntity(r, m)
+				valid, validOuts, singles := c06wPrepare(a.Gen, u, r, m, ent)
+				var paths [][]string
+				for _, p := range singles {
+					for _, want := range rp.Paths {
+						if scopeString(p) == want {
+							paths = append(paths, p)
+						}
+					}
+				}
+				kind, detail := lenientCase(a.Gen, u, r, m, ent, paths, rp.Null, rp.Strict, valid, validOuts)
+				fmt.Printf("%s.%s response without %v (null=%v) strict=%v\n", r.Name(), rp.Method, rp.Paths, rp.Null, rp.Strict)
+				if kind != "" {
+					fmt.Println("FAIL:", kind, detail)
+					os.Exit(1)
+				}
+			}
+			fmt.Println("no violation")
 		case "C07W":
 			var rp exclWireReplay
 			a.LoadReplay(&rp)
@@ -185,6 +211,8 @@ func main() {
 		partC07W(a, rep, univName, u)
 	case "C04H":
 		partC04H(a, rep, univName, u)
+	case "C06W":
+		partC06W(a, rep, univName, u)
 	case "C08":
 		partC08(a, rep, univName, u)
 	case "C16":
